@@ -425,7 +425,6 @@ func checkDecoders(c *Ctx, ev *tmpl.Evaluator, gen *packages.Package) {
 		"tuple members are re-ordered ("+sorted+"): the serializer decodes array position i into the i-th member, so members p10, p11 sorted before p2 receive the wrong items")
 }
 
-
 // checkSerializerReceivers: encoding/json does not call a pointer-receiver MarshalJSON on a value
 // that is not addressable (a map element, a value passed by value): every generated MarshalJSON has a
 // value receiver, every UnmarshalJSON a pointer receiver.
@@ -519,7 +518,6 @@ func checkRequiredExact(c *Ctx, gen *packages.Package) {
 		c.Unk(rule, "generator › uses of Schema.Required", "", "no range over a Required list found")
 	}
 }
-
 
 // checkDecodeTargets: json.Unmarshal needs a non-nil pointer: the additional-properties decoders
 // declare `var toadd T` and must pass its address whatever T is (for a pointer T the variable
